@@ -311,7 +311,7 @@ class ShiftCmp(Base):
 TBL = [3, 141, 59, 26]
 BTBL = [Bits8(0x11), Bits8(0xEE), Bits8(0x80), Bits8(0x7F)]
 KP = Pst(9, 6)
-STRUCT_BEHAVIORAL = ("StructBuild", "StructReg", "LhsFields", "FreeScalars", "ChildStructPorts", "FieldCmpExt", "IfcStructMsg", "SextArrayField")     # MemberConsts has struct CONSTANTS only: checked strictly     # designs whose blocks touch struct-typed signals / constants (signature class of the Yosys struct findings)
+STRUCT_BEHAVIORAL = ("StructBuild", "StructReg", "LhsFields", "FreeScalars", "ChildStructPorts", "FieldCmpExt", "IfcStructMsg", "SextArrayField", "TmpStructField")     # MemberConsts has struct CONSTANTS only: checked strictly     # designs whose blocks touch struct-typed signals / constants (signature class of the Yosys struct findings)
 K5 = 5
 KB = Bits8(0xC3)
 
@@ -1770,6 +1770,67 @@ class GlobalsOfTwoModules(OtherModuleBase):
     def up_g2m():
       s.p @= s.a + GK
       s.r @= s.b + GT[1]
+
+
+# ------------------------------------------------------------------ negative constants, selects on temporaries
+KNEG = -3
+
+
+@design(lambda st, a, b, sel, en, reset: (None, {"o": 0xFD, "p": 0xFE, "q": 0xF, "r": 0xFB if en else a, "t": (a + 0xFD) & M8 if en else 0xFE}))
+class NegativeConstants(Base):
+  """negative integers: a module-level constant, a member constant, BitsN(-k) casts (two's complement in the width of the context)"""
+  def construct(s):
+    s.ports()
+    s.o = OutPort(Bits8)
+    s.p = OutPort(Bits8)
+    s.q = OutPort(Bits4)
+    s.r = OutPort(Bits8)
+    s.t = OutPort(Bits8)
+    s.kn = -2
+
+    @update
+    def up_negc():
+      s.o @= KNEG
+      s.p @= s.kn
+      s.q @= Bits4(-1)
+      s.r @= Bits8(-5) if s.en else s.a
+      if s.en:
+        s.t @= s.a + Bits8(-3)
+      else:
+        s.t @= s.kn
+
+
+@design(lambda st, a, b, sel, en, reset: (None, {"o": bit(a, 3), "p": (a >> 2) & 0xF, "q": bit(b, sel)}))
+class TmpVarSelect(Base):
+  """bit / part / variable-bit selects of a temporary"""
+  def construct(s):
+    s.ports()
+    s.o = OutPort(Bits8)
+    s.p = OutPort(Bits8)
+    s.q = OutPort(Bits8)
+
+    @update
+    def up_tvs():
+      u = s.a
+      s.o @= zext(u[3], 8)
+      s.p @= zext(u[2:6], 8)
+      v = s.b
+      s.q @= zext(v[zext(s.sel, 3)], 8)
+
+
+@design(lambda st, a, b, sel, en, reset: (None, {"o": b & 0xF, "p": a & 0xF}))
+class TmpStructField(Base):
+  """fields of a bitstruct-valued temporary"""
+  def construct(s):
+    s.ports()
+    s.o = OutPort(Bits8)
+    s.p = OutPort(Bits8)
+
+    @update
+    def up_tsf():
+      t = Pst(s.a[0:4], s.b[0:4])
+      s.o @= zext(t.y, 8)
+      s.p @= zext(t.x, 8)
 
 
 def sequences():
